@@ -32,6 +32,7 @@ ASSUMPTIONS = [
     "transactions published in BIP143 (all six sighash types) in the selftest", "E2 small-curve retargeting (see C03)",
 ]
 OBLIGATIONS = {
+    "history_sequences": "operation sequences (non-initial process states) explored",
     "inexact_float_amount": "a UTXO amount whose float*1e8 is not an integer", "vout_nonzero": "a spent output index other than 0",
     "multi_input": "more than one input selected", "segwit_sender": "a segwit sender kind signed", "legacy_sender": "a legacy sender kind signed",
     "flag_not_all": "a sighash flag other than ALL", "nondefault_version_locktime": "version 2 or non-zero locktime",
@@ -288,17 +289,38 @@ CASES = {"send": chk_send}
 
 
 def run_case(kind, case):
+    if kind == "seq":
+        from vf import seqexplore
+        return seqexplore.replay(run_case, case)
     return CASES[kind](case)
+
+
+def seq_ops(job):
+    """several sends in one process image: same sender with a changed UTXO set, different senders, different flags"""
+    cv = job["curve"]
+    D0 = dims("quick")
+    base = {k: v[0] for k, v in D0.items()}
+    ops = []
+    for sender in ("p2pkh-c", "p2wpkh", "p2sh"):
+        mn = [2, 3] if sender == "p2sh" else [1, 1]
+        for extra in ({}, {"n_utxo": 2, "amt": 3}, {"amt": 5, "vout0": 1, "locktime": 500000}, {"fraction": 0.5, "flag": 0x83}):
+            ops.append(("send", {"seed": job["seed"], "curve": cv, "a": dict(base, sender=sender, mn=mn, **extra)}))
+    return ops
 
 
 def jobs(tier, seed):
     t = list(smallcurve.TABLE[2])
     js = [{"name": f"small/{sh}", "part": "send", "curve": t, "shard": [sh, 24], "d": 2 if tier == "quick" else 3, "weight": 8} for sh in range(24)]
     js += [{"name": f"secp/{sh}", "part": "send", "shard": [sh, 16], "d": 1 if tier == "quick" else 2, "weight": 10} for sh in range(16)]
+    from vf.runner import seq_jobs
+    js += seq_jobs(6, curve=t, weight=5)
     return js
 
 
 def run_job(job):
+    if job["part"] == "seq":
+        from vf.runner import run_seq_job
+        return run_seq_job(job, seq_ops(job), run_case)
     acc = Acc(job)
     seed, tier = job["seed"], job["tier"]
     sh, nsh = job["shard"]
